@@ -330,6 +330,17 @@ def write_replay(prop, seed, n, rec):
 
 def replay(prop, path):
     body = json.load(open(path))
+    if str(body.get("job", "")).startswith("probe:"):
+        # auxiliary compile probe: the program must be rejected by rustc
+        env = dict(os.environ, CARGO_TARGET_DIR=os.path.join(ROOT, "target-probes"), CARGO_NET_OFFLINE="true", RUSTFLAGS="")
+        p = subprocess.run(body["argv"], cwd=body.get("cwd"), env=env, stdout=subprocess.PIPE, stderr=subprocess.STDOUT, text=True)
+        sys.stdout.write(p.stdout[-2000:] + "\n")
+        if p.returncode == 0:
+            print(f"VIOL prop={prop} sig={body.get('signature')} case={body.get('case')} detail=the probe program compiles")
+            print(f"VIOLATION property={prop} replay={path}")
+            return 1
+        print("replay: the probe program is rejected (no violation reproduced)")
+        return 0
     if body.get("build") and body["build"] in BUILDS:
         build(body["build"])
     argv = list(body["argv"])
